@@ -45,8 +45,11 @@ def run_all(args):
                meta["breaks_property"]] + args
         return d, sh(cmd, timeout=7200)
 
-    with ThreadPoolExecutor(max_workers=par) as ex:
-        results = list(ex.map(one, metas))
+    if "--newest-first" in args:
+        args.remove("--newest-first")
+        metas.sort(key=lambda m: -json.load(open(m)).get("round", 1))
+    ex = ThreadPoolExecutor(max_workers=par)
+    results = ex.map(one, metas)          # reported as they arrive, in list order
     for d, (rc, o) in results:
         meta = json.load(open(d))
         try:
